@@ -1,209 +1,93 @@
-"""helpers for whole-run replays on global models (coq/Base/Replay.v): exact old->new chains of read-modify-write words and a
-global order of the recorded events that respects them and every thread's program order."""
+"""Untrusted search for a global order of the recorded actions of a whole round (all threads), used by the whole-round replays
+on global models (coq/Base/Replay.v; lib/props/c08.py, c09.py).  The result is only a PREFERRED ORDER: the replay itself is
+done by the model inside Coq, which accepts an action only when the model's own step function does.
+
+Every action has an interval in which it took place: from the stamp of its thread's previous event to its own stamp (the
+recorder takes a stamp right after each operation, from one global counter; a hidden step lies between the two events around
+it).  Hence b precedes a whenever hi(b) < lo(a).  Depth-first search over the admissible next actions of the threads, in
+stamp order, with a small model of the shared words supplied by the caller (enabled / apply on an immutable state);
+independent actions (observations, marks) are taken first and without alternative; states proved dead are not entered twice."""
 
 
-def chain(events, start, old_of, new_of, thr_of, seq_of, limit=400000):
-    """order `events` so that old(e_k) = new(e_{k-1}) (old(e_0) = start), keeping every thread's program order (events of one
-    thread appear in program order in the input); depth-first with the recorder's stamp as the preference.
-    returns (ordered list or None, value reached)"""
-    byth = {}
-    for e in events:
-        byth.setdefault(thr_of(e), []).append(e)
-    pos = {t: 0 for t in byth}
-    order, cur, steps = [], start, 0
-    stack = []
-    n = len(events)
+class Act:
+    __slots__ = ("tid", "idx", "hi", "lo", "data", "indep", "hidden")
+
+    def __init__(self, tid, idx, hi, data, indep=False, hidden=False):
+        self.tid, self.idx, self.hi, self.lo, self.data, self.indep, self.hidden = tid, idx, hi, None, data, indep, hidden
+
+
+def linearize(threads, init, enabled, apply, budget=None):
+    """threads: list of lists of Act in program order (hi of a hidden action may be None: it is set to the next action's hi).
+    enabled(state, act) -> bool; apply(state, act) -> state (states are hashable, immutable).
+    Returns (order: list of Act, complete: bool)."""
+    for acts in threads:
+        for j, a in enumerate(acts):
+            if a.hi is None:
+                a.hi = acts[j + 1].hi if j + 1 < len(acts) else float("inf")
+        for j, a in enumerate(acts):
+            a.lo = acts[j - 1].hi if j > 0 else float("-inf")
+            if j > 0 and acts[j - 1].hidden:
+                a.lo = acts[j - 1].lo
+    n = sum(len(t) for t in threads)
+    if budget is None:
+        budget = 60 * n + 2000
+    pos = [0] * len(threads)
+    allacts = sorted((a for t in threads for a in t), key=lambda a: a.hi)
+    rank = {id(a): i for i, a in enumerate(allacts)}
+    done = [False] * n
+    headp = 0
+    state = init
+    order = []
+    stack = []      # (state before, headp before, chosen (thread index), remaining alternatives)
+    dead = set()
+    best = []
+    steps = 0
+
+    def key():
+        return (tuple(pos), state)
+
     while len(order) < n:
-        cands = sorted([byth[t][pos[t]] for t in byth if pos[t] < len(byth[t]) and old_of(byth[t][pos[t]]) == cur], key=seq_of)
-        stack.append([cands, 0, cur])
-        while True:
-            steps += 1
-            if steps > limit or not stack:
-                return None, cur
-            top = stack[-1]
-            if top[1] < len(top[0]):
-                e = top[0][top[1]]
-                top[1] += 1
-                order.append(e)
-                pos[thr_of(e)] += 1
-                cur = new_of(e)
-                break
-            stack.pop()
-            if not order:
-                return None, cur
-            e = order.pop()
-            pos[thr_of(e)] -= 1
-            cur = stack[-1][2] if stack else start
-    return order, cur
-
-
-def relaxed_ranks(threads, chains, seq_of, rounds=400):
-    """threads: list of event lists (program order); chains: list of event lists (exact order on one word).
-    Returns {id(event): rank}: a total order close to the stamps in which every list is increasing."""
-    anchor = {}
-    for evs in threads:
-        for e in evs:
-            anchor[id(e)] = float(seq_of(e))
-    eps = 1e-3
-    lists = list(threads) + list(chains)
-    for _ in range(rounds):
-        changed = False
-        for lst in lists:
-            for x, y in zip(lst, lst[1:]):
-                if anchor[id(y)] <= anchor[id(x)]:
-                    anchor[id(y)] = anchor[id(x)] + eps
-                    changed = True
-        if not changed:
-            break
-    allev = [e for evs in threads for e in evs]
-    allev.sort(key=lambda e: (anchor[id(e)], seq_of(e)))
-    return {id(e): k + 1 for k, e in enumerate(allev)}
-
-
-def chain_wild(writes, start, old_of, new_of, thr_of, seq_of, limit=400000):
-    """like chain(), but old_of(e) may be None (a blind store: fits any current value)"""
-    byth = {}
-    for e in writes:
-        byth.setdefault(thr_of(e), []).append(e)
-    pos = {t: 0 for t in byth}
-    order, cur, steps = [], start, 0
-    stack = []
-    n = len(writes)
-    while len(order) < n:
-        cands = []
-        for t in byth:
-            if pos[t] < len(byth[t]):
-                e = byth[t][pos[t]]
-                o = old_of(e)
-                if o is None or o == cur:
-                    cands.append(e)
-        cands.sort(key=seq_of)
-        stack.append([cands, 0, cur])
-        while True:
-            steps += 1
-            if steps > limit or not stack:
-                return None
-            top = stack[-1]
-            if top[1] < len(top[0]):
-                e = top[0][top[1]]
-                top[1] += 1
-                order.append(e)
-                pos[thr_of(e)] += 1
-                cur = new_of(e)
-                break
-            stack.pop()
-            if not order:
-                return None
-            e = order.pop()
-            pos[thr_of(e)] -= 1
-            cur = stack[-1][2] if stack else start
-    return order
-
-
-def constrained_ranks(threads, classify, init_of, seq_of, thr_of, extra_edges=(), slack=40, rounds=60):
-    """threads: list of event lists (program order).  classify(e) -> None | (word, 'w', old_or_None, new) | (word, 'r', value).
-    Builds, per word, the exact order of its writes (chain_wild) and places every read between the write that produced the
-    value it saw and the next write; then relaxes the recorder's stamps until program order, write chains, read placements and
-    extra_edges (pairs (x, y): x before y) hold.  Returns ({id(event): rank}, info)."""
-    words = {}
-    for evs in threads:
-        for e in evs:
-            c = classify(e)
-            if c is not None:
-                words.setdefault(c[0], []).append((e, c))
-    edges = list(extra_edges)
-    wpos = {}          # id(write event) -> (word number, label of its (old, new) pair)
-    wchains = {}       # word number -> labels along the chain
-    wnum = 0
-    info = {"words": len(words), "chains_failed": 0, "reads_unplaced": 0}
-    for wk, lst in words.items():
-        writes = [e for (e, c) in lst if c[1] == 'w']
-        cls = {id(e): c for (e, c) in lst}
-        order = chain_wild(writes, init_of(wk), lambda e: cls[id(e)][2], lambda e: cls[id(e)][3], thr_of, seq_of)
-        if order is None:
-            info["chains_failed"] += 1
-            order = sorted(writes, key=seq_of)
+        steps += 1
+        if steps > budget:
+            return best, False
+        while headp < n and done[headp]:
+            headp += 1
+        minhi = allacts[headp].hi if headp < n else float("inf")
+        cands = None
+        if key() not in dead:
+            cands = [ti for ti in range(len(threads)) if pos[ti] < len(threads[ti]) and threads[ti][pos[ti]].lo <= minhi]
+            cands.sort(key=lambda ti: threads[ti][pos[ti]].hi)
+            en = [ti for ti in cands if enabled(state, threads[ti][pos[ti]])]
+            ind = [ti for ti in en if threads[ti][pos[ti]].indep]
+            if ind:
+                choice, alts = ind[0], []
+            elif en:
+                choice, alts = en[0], en[1:]
+            else:
+                choice = None
         else:
-            wnum += 1
-            labs, seqlabs = {}, []
-            cur = init_of(wk)
-            for e in order:
-                lab = labs.setdefault((cur, cls[id(e)][3]), len(labs) + 1)
-                wpos[id(e)] = (wnum, lab)
-                seqlabs.append(lab)
-                cur = cls[id(e)][3]
-            wchains[wnum] = seqlabs
-        for x, y in zip(order, order[1:]):
-            edges.append((x, y))
-        producers = {}          # value -> positions in order that produce it (-1: the initial value)
-        producers.setdefault(init_of(wk), []).append(-1)
-        for k, e in enumerate(order):
-            producers.setdefault(cls[id(e)][3], []).append(k)
-        for (e, c) in lst:
-            if c[1] != 'r':
-                continue
-            ps = producers.get(c[2])
-            if not ps:
-                info["reads_unplaced"] += 1
-                continue
-            s = seq_of(e)
-            best, bcost, near = None, None, 0
-            for k in ps:
-                lo = seq_of(order[k]) if k >= 0 else -1
-                hi = seq_of(order[k + 1]) if k + 1 < len(order) else float("inf")
-                cost = 0 if lo <= s <= hi else min(abs(s - lo), abs(s - hi))
-                if cost <= 4 * slack:
-                    near += 1
-                if bcost is None or cost <= bcost:
-                    best, bcost = k, cost
-            if bcost > 0 and near > 1:
-                info["reads_ambiguous"] = info.get("reads_ambiguous", 0) + 1
-                continue        # the value recurs nearby and the stamp fits none of its intervals: leave it to the scheduler
-            if best >= 0:
-                edges.append((order[best], e))
-            if best + 1 < len(order):
-                edges.append((e, order[best + 1]))
-    hard = []
-    for evs in threads:
-        for x, y in zip(evs, evs[1:]):
-            hard.append((x, y))
-    soft = list(edges)
-    eps = 1e-3
-    stable = False
-    dropped = 0
-    for attempt in range(12):
-        anchor = {}
-        for evs in threads:
-            for e in evs:
-                anchor[id(e)] = float(seq_of(e))
-        alledges = hard + soft
-        cause = {}
-        last = []
-        for r in range(rounds):
-            last = []
-            for (x, y) in alledges:
-                ax = anchor[id(x)]
-                if anchor[id(y)] <= ax:
-                    anchor[id(y)] = ax + eps
-                    cause[id(y)] = x
-                    last.append((x, y))
-            if not last:
-                stable = True
-                break
-        if stable:
-            break
-        # a cycle: drop the placements (not the program order) that were still moving
-        bad = set((id(x), id(y)) for (x, y) in last)
-        n0 = len(soft)
-        soft = [(x, y) for (x, y) in soft if (id(x), id(y)) not in bad]
-        dropped += n0 - len(soft)
-        if n0 == len(soft):
-            break
-    info["order_stable"] = stable
-    info["_cause"] = cause
-    info["_wpos"] = wpos
-    info["_wchains"] = wchains
-    info["placements_dropped"] = dropped
-    allev = [e for evs in threads for e in evs]
-    allev.sort(key=lambda e: (anchor[id(e)], seq_of(e)))
-    return {id(e): k + 1 for k, e in enumerate(allev)}, info
+            choice = None
+        if choice is None:
+            # dead end: chronological backtracking
+            dead.add(key())
+            while True:
+                if not stack:
+                    return best, False
+                st, hp, ti, alts = stack.pop()
+                a = order.pop()
+                pos[ti] -= 1
+                done[rank[id(a)]] = False
+                state, headp = st, hp
+                if alts:
+                    choice, alts = alts[0], alts[1:]
+                    break
+                dead.add(key())
+        a = threads[choice][pos[choice]]
+        stack.append((state, headp, choice, alts))
+        state = apply(state, a)
+        order.append(a)
+        pos[choice] += 1
+        done[rank[id(a)]] = True
+        if len(order) > len(best):
+            best = list(order)
+    return order, True
